@@ -16,6 +16,7 @@ func init() {
 	vfHarnesses["C07_multipoint_empty_member"] = vfhC07MultiPointEmptyMember
 	vfHarnesses["C07_collection"] = vfhC07Collection
 	vfHarnesses["C07_collection_full"] = vfhC07CollectionFull
+	vfHarnesses["C07_collection_line"] = vfhC07CollectionLine
 	vfHarnesses["C07_multipolygon_empty_member"] = vfhC07MultiPolygonEmptyMember
 }
 
@@ -383,5 +384,30 @@ func vfhC07MultiPolygonEmptyMember() {
 	vfAssert(err == nil, "unmarshal succeeds")
 	vfAssert(g2.IsMultiPolygon(), "type")
 	vfAssert(g2.CoordinatesType() == ct, "coordinate type survives (the geometry contains ordinates)")
+	vfReach("end")
+}
+
+// C07: GeometryCollection(Point, 2-point LineString), XY, precision 0, with
+// the bbox header: it is the envelope of all three decoded positions (a member
+// may extend the running box on both sides of an axis at once).
+func vfhC07CollectionLine() {
+	p := vfSmallCoords("p", DimXY, 0, 0, 0)
+	a := vfSmallCoords("a", DimXY, 0, 0, 0)
+	b := vfSmallCoords("b", DimXY, 0, 0, 0)
+	ls := NewLineString(NewSequence([]float64{a.X, a.Y, b.X, b.Y}, DimXY))
+	gc := NewGeometryCollection([]Geometry{NewPoint(p).AsGeometry(), ls.AsGeometry()}).AsGeometry()
+	twkb, err := MarshalTWKB(gc, 0, TWKBBoundingBoxHeader())
+	vfAssert(err == nil, "marshal succeeds")
+	env, has, err := UnmarshalTWKBEnvelope(twkb)
+	vfAssert(err == nil && has, "bbox header present")
+	mn, mx, ok := env.XYEnvelope.MinMaxXYs()
+	vfAssert(ok, "bbox not empty")
+	ep, ea, eb := vfExpectCoords(p, 0, 0, 0), vfExpectCoords(a, 0, 0, 0), vfExpectCoords(b, 0, 0, 0)
+	loX, hiX := vfMinF(ep.X, vfMinF(ea.X, eb.X)), vfMaxF(ep.X, vfMaxF(ea.X, eb.X))
+	loY, hiY := vfMinF(ep.Y, vfMinF(ea.Y, eb.Y)), vfMaxF(ep.Y, vfMaxF(ea.Y, eb.Y))
+	vfAssert(vfAnd(vfEqF(mn.X, loX), vfEqF(mx.X, hiX)), "bbox X range is the range of the decoded X ordinates")
+	vfAssert(vfAnd(vfEqF(mn.Y, loY), vfEqF(mx.Y, hiY)), "bbox Y range is the range of the decoded Y ordinates")
+	g2, err := UnmarshalTWKB(twkb, NoValidate{})
+	vfAssert(err == nil && g2.IsGeometryCollection() && g2.MustAsGeometryCollection().NumGeometries() == 2, "full decode agrees on the structure")
 	vfReach("end")
 }
